@@ -1205,6 +1205,7 @@ class Realised:
         self.created_in: dict[int, int] = {}  # abstract id -> callback nesting depth at creation
         self.extras = 0
         self.style = ""
+        self.dims = "concrete"  # how the model inputs were declared
         self.unobservable: Optional[str] = None  # set when a spox internal could not be read
 
 
@@ -1245,6 +1246,7 @@ def realise(prog, rng: random.Random, style: str = "lazy", twins: bool = False, 
     dep = formal_deps(prog)
     R = Realised()
     R.style = style
+    R.dims = dims
     extras = style.endswith("-extras")
     base = style.replace("-extras", "")
     depth = [0]
